@@ -279,7 +279,7 @@ fn unit_body(part: &'static dyn Part, prop: &'static str, tier: Tier, base_seed:
 fn fresh_thread(part: &'static dyn Part, prop: &'static str, plan: Value, trace: bool) -> Result<Report, String> {
     let pr = PartRef(part as *const dyn Part);
     let h = std::thread::Builder::new()
-        .stack_size(64 << 20)
+        .stack_size(16 << 20)
         .spawn(move || run_guarded(pr.get(), prop, &plan, trace))
         .map_err(|e| format!("thread spawn: {e}"))?;
     match h.join() {
